@@ -166,7 +166,11 @@ struct PartOut {
     wins_a: Vec<u64>,
 }
 
+/// when set, every set is fed in two calls (lighter half first, so that the two calls see different heaviest weights)
+static SPLIT_MODE: std::sync::atomic::AtomicBool = std::sync::atomic::AtomicBool::new(false);
+
 fn partition(v: Variant, alt: bool, m: usize, sh: &Shape, t: u64, base: u64) -> Result<PartOut, String> {
+    let split = SPLIT_MODE.load(std::sync::atomic::Ordering::Relaxed);
     let nr = sh.roles.len() as u64;
     let j = jp(&sh.roles);
     // accumulate moments chunk-wise (no per-labelling storage): n, sum x, sum x^2, sum d^2, sum d^4 with d = x - J_P
@@ -180,9 +184,17 @@ fn partition(v: Variant, alt: bool, m: usize, sh: &Shape, t: u64, base: u64) -> 
                 let o = base + tt * nr;
                 let wa: Vec<(u64, f64)> = sh.roles.iter().enumerate().filter(|(_, w)| w.0 > 0.).map(|(r, w)| (o + r as u64, w.0)).collect();
                 let wb: Vec<(u64, f64)> = sh.roles.iter().enumerate().filter(|(_, w)| w.1 > 0.).map(|(r, w)| (o + r as u64, w.1)).collect();
-                let e = entry_for(v, alt);
-                let sa = run_variant(v, e, m, &wa).ok_or("entry")??.0;
-                let sb = run_variant(v, e, m, &wb).ok_or("entry")??.0;
+                let (mut wa, mut wb) = (wa, wb);
+                let run = |w: &mut Vec<(u64, f64)>| {
+                    if split && w.len() >= 2 {
+                        w.sort_by(|a, b| a.1.partial_cmp(&b.1).unwrap());
+                        run_variant(v, Entry::Split(w.len() / 2), m, w)
+                    } else {
+                        run_variant(v, entry_for(v, alt), m, w)
+                    }
+                };
+                let sa = run(&mut wa).ok_or("entry")??.0;
+                let sb = run(&mut wb).ok_or("entry")??.0;
                 let eq = sa.iter().zip(sb.iter()).filter(|(x, y)| x == y).count();
                 for s in &sa {
                     let r = s.wrapping_sub(o);
@@ -316,12 +328,20 @@ pub fn run(ctx: &Ctx) -> i32 {
     let mut maxz: f64 = 0.;
     let mut cfg_i = 0u64;
     let n_plain = shapes().len();
-    for (shi, sh) in shapes().into_iter().chain(scaled_shapes()).enumerate() {
+    for (shi, sh, split) in shapes()
+        .into_iter()
+        .chain(scaled_shapes())
+        .enumerate()
+        .map(|(i, s)| (i, s, false))
+        // the same sets fed in two calls (lighter half first): a few shapes, one size, every variant
+        .chain(shapes().into_iter().filter(|s| ["weights differing by 1e6", "common items, different weights", "nested: A inside B", "four items"].contains(&s.name)).map(|s| (usize::MAX, s, true)))
+    {
+        SPLIT_MODE.store(split, std::sync::atomic::Ordering::Relaxed);
         let scaled = shi >= n_plain;
         let j = jp(&sh.roles);
         let sumw: f64 = sh.roles.iter().map(|w| w.0).sum();
         // scaled shapes: one size, both entry points of every variant
-        let ms_here: Vec<usize> = if scaled { vec![8] } else { ms.clone() };
+        let ms_here: Vec<usize> = if scaled || split { vec![8] } else { ms.clone() };
         for &m in &ms_here {
             for (vi, v) in VARS.iter().enumerate().flat_map(|x| if scaled { vec![x, x] } else { vec![x] }) {
                 cfg_i += 1;
@@ -376,7 +396,7 @@ pub fn run(ctx: &Ctx) -> i32 {
                     }
                 }
                 maxz = maxz.max(z.abs());
-                let case = json!({"kind": "shape", "variant": format!("{:?}", v), "m": m, "shape": sh.name, "alt_entry": alt, "t": t, "base": b0.to_string()});
+                let case = json!({"kind": "shape", "variant": format!("{:?}", v), "m": m, "shape": sh.name, "alt_entry": alt, "two_calls": split, "t": t, "base": b0.to_string()});
                 if bad_mean {
                     ctx.violation(
                         &format!("mean:{:?}:{}", v, sh.name),
@@ -419,16 +439,17 @@ pub fn run(ctx: &Ctx) -> i32 {
                     ctx.sample(json!({"shape": sh.name, "roles_weight_in_A_and_B": sh.roles.iter().take(6).collect::<Vec<_>>(), "variant": format!("{:?}", v), "entry": format!("{:?}", entry_for(*v, alt)), "m": m,
                         "labellings": t, "first_labelling_ids_start_at": b0, "J_P": j, "mean_fraction_equal": p.mean, "z": z}));
                 }
-                pdetails.push(json!({"shape": sh.name, "variant": format!("{:?}", v), "entry": format!("{:?}", entry_for(*v, alt)), "m": m, "labellings": t, "J_P": j, "mean": p.mean, "z": z,
+                pdetails.push(json!({"shape": sh.name, "variant": format!("{:?}", v), "entry": if split { "two calls (lighter half first)".to_string() } else { format!("{:?}", entry_for(*v, alt)) }, "m": m, "labellings": t, "J_P": j, "mean": p.mean, "z": z,
                     "mse_over_bound": if bound > 0. { p.mse / bound } else { 0. }, "z_mse": zmse, "worst_win_sigma": worst_win}));
             }
         }
     }
+    SPLIT_MODE.store(false, std::sync::atomic::Ordering::Relaxed);
     println!("C01 end-to-end: {} configurations, max |z| = {:.2}", pdetails.len(), maxz);
     let coverage = json!({
         "evaluations": evals,
         "distinct_nontrivial": pdetails.len() as u64 + tdetails.len() as u64 * n_tab / 4,
-        "rule": "(1) for every identifier of a block of 2^17 (2^21) and m in {2,3,4,8,16,(64,256)}, variants 2, 3 (Fnv and no-op hashers) and 3a-Sha: the single-item sketch is computed by the real code and the per-position register (hook H2) law is compared with Exp(1/m) (variant 2) resp. Exp(ln(m/(m-1))) (variants 3) by KS, the position of the minimum with the uniform law by chi2; (2) 12 weighted-set shapes plus 8 scaled ones (two shapes with all weights multiplied by 2^70, 2^-70, 1e15, 2^600; m=8, both entry points of every variant) (equal weights, identical, disjoint, nested, weights differing by 1e6, 1 vs 300, 200 pseudo-random weights, common items with different weights, sets of two, three and four items) x m in {2,3,8,32,(4,128)} x 6 variants (2, 3, 3a, 3a-Sha, and 2 / 3a with the no-op hasher) x alternating entry points (hash_item / IndexMap / HashMap) on T disjoint labellings: |mean - J_P| <= 6 se with J_P computed from its definition, MSE <= J_P(1-J_P)/m + 6 se; (3) on the same runs the share of positions won by each item of A against w/sum(w); exceedances are confirmed on a 4x larger fresh block; distinct = configurations + block elements (one per identifier, conservatively a quarter counted)",
+        "rule": "(1) for every identifier of a block of 2^17 (2^21) and m in {2,3,4,8,16,(64,256)}, variants 2, 3 (Fnv and no-op hashers) and 3a-Sha: the single-item sketch is computed by the real code and the per-position register (hook H2) law is compared with Exp(1/m) (variant 2) resp. Exp(ln(m/(m-1))) (variants 3) by KS, the position of the minimum with the uniform law by chi2; (2) 12 weighted-set shapes, 4 of them again with every set fed in two calls (lighter half first; m = 8), plus 8 scaled ones (two shapes with all weights multiplied by 2^70, 2^-70, 1e15, 2^600; m=8, both entry points of every variant) (equal weights, identical, disjoint, nested, weights differing by 1e6, 1 vs 300, 200 pseudo-random weights, common items with different weights, sets of two, three and four items) x m in {2,3,8,32,(4,128)} x 6 variants (2, 3, 3a, 3a-Sha, and 2 / 3a with the no-op hasher) x alternating entry points (hash_item / IndexMap / HashMap) on T disjoint labellings: |mean - J_P| <= 6 se with J_P computed from its definition, MSE <= J_P(1-J_P)/m + 6 se; (3) on the same runs the share of positions won by each item of A against w/sum(w); exceedances are confirmed on a 4x larger fresh block; distinct = configurations + block elements (one per identifier, conservatively a quarter counted)",
         "samples": [
             {"table": {"variant": "P3", "m": 8, "item": base, "weight": 1.0}},
             {"shape": {"name": "weights differing by 1e6", "J_P": jp(&shapes()[4].roles)}},
@@ -457,8 +478,9 @@ pub fn replay(_ctx: &Ctx, case: &Value) -> Result<(bool, String), String> {
             let v = parse_v(case["variant"].as_str().ok_or("variant")?).ok_or("variant")?;
             let m = case["m"].as_u64().ok_or("m")? as usize;
             let name = case["shape"].as_str().ok_or("shape")?;
-            let sh = shapes().into_iter().find(|s| s.name == name).ok_or("shape")?;
+            let sh = shapes().into_iter().chain(scaled_shapes()).find(|s| s.name == name).ok_or("shape")?;
             let alt = case["alt_entry"].as_bool().unwrap_or(false);
+            SPLIT_MODE.store(case["two_calls"].as_bool().unwrap_or(false), std::sync::atomic::Ordering::Relaxed);
             let t = case["t"].as_u64().unwrap_or(10_000);
             let base: u64 = case["base"].as_str().unwrap_or("0").parse().unwrap_or(0);
             let p = partition(v, alt, m, &sh, t, base)?;
